@@ -4,7 +4,7 @@ import difflib
 
 from ..core.source import AnalysisError, parent
 from ..core import paths
-from ..core.astutil import strip_doc, stmts_in_order, calls, is_call, kwargs_of, guards, u, parse_expr, returns, self_attr
+from ..core.astutil import strip_doc, stmts_in_order, calls, is_call, kwargs_of, guards, u, parse_expr, returns, self_attr, enclosing_stmt
 from ..core.exprnf import NF, local_env
 
 META = {
@@ -183,9 +183,19 @@ def r09d(ctx):
     f = repo.member(A, "make_noise")
     asg = [st for st in ast.walk(f) if isinstance(st, ast.Assign) and self_attr(st.targets[0], "_noise_master")]
     ok = bool(asg)
+    # (a guard clause at the top of the function -- `if self._noise_master is not None: return ...` -- says the same for everything after it)
+    clause = False
+    for top in strip_doc(f):
+        if isinstance(top, ast.If) and not top.orelse and u(top.test) in ("self._noise_master is not None", "not self._noise_master is None") \
+                and top.body and isinstance(top.body[-1], (ast.Return, ast.Raise)):
+            clause = True
+        if any(x is top for st in asg for x in [enclosing_stmt(st, f)]):
+            break
     for st in asg:
         g = guards(st, stop=f)
-        ok = ok and any(u(t) == "self._noise_master is None" and pol for t, pol in g)
+        ok = ok and (any(u(t) == "self._noise_master is None" and pol for t, pol in g)
+                     or (clause and any(isinstance(top, ast.If) and not top.orelse and u(top.test) in ("self._noise_master is not None", "not self._noise_master is None")
+                                        for top in strip_doc(f)[:[id(x) for x in strip_doc(f)].index(id(enclosing_stmt(st, f)))])))
     ctx.check(ok, "R09d", f"{A}.make_noise", "the noise master is constructed only when it is None", f"{len(asg)} construction site(s)",
               key_detail="construction guard", loc=ctx.loc("pyrex.antenna", f))
     r = returns(f)
